@@ -121,7 +121,7 @@ int main(int argc, char **argv)
 	}
 	/* genkeys */
 	{
-		static const char *SPECS[] = { "rsa:2048", "rsa:3072", "okp:Ed25519", "okp:Ed448" };
+		static const char *SPECS[] = { "rsa:2048", "rsa:3072", "okp:Ed25519", "okp:Ed448", "rsafile:8200", "rsafile:16384" };	/* the last two: members longer than 1024 octets */
 		static const char *CURVES[] = { "ec:P-256", "ec:P-384", "ec:P-521", "ec:secp256k1" };
 		static const int OCTS[] = { 32, 48, 64, 100 };
 		int target = a.n > 0 ? (int)a.n : 1;
@@ -129,7 +129,7 @@ int main(int argc, char **argv)
 		for (size_t i = 0; i < sizeof(SPECS) / sizeof(*SPECS); i++) {
 			vh_key_t k;
 			char name[64], *j;
-			if (!a.thorough && !strcmp(SPECS[i], "rsa:3072")) continue;
+			if (!a.thorough && (!strcmp(SPECS[i], "rsa:3072") || !strcmp(SPECS[i], "rsafile:16384"))) continue;
 			if (vh_key_gen(&k, SPECS[i], &rng)) vh_harness_fail("keygen");
 			snprintf(name, sizeof(name), "%s", SPECS[i]); name[strcspn(name, ":")] = '_';
 			write_pems(dir, name, k.pkey);
